@@ -1555,12 +1555,13 @@ async fn hwm(p: &[&str]) -> String {
     "ipc" => format!("ipc:///tmp/{}.sock", unique_name("rzmq-verif-hwm")),
     _ => format!("inproc://{}", unique_name("hwm")),
   };
+  // monitors first: a listener hands the monitor that exists at bind time to the sessions it accepts
+  let ms = snd.monitor_default().await.ok();
+  let mr = rcv.monitor_default().await.ok();
   if let Err(e) = rcv.bind(&ep).await {
     return format!("setup-error bind {}", err_class(&e));
   }
   let target = if transport == "tcp" { last_endpoint(&rcv).await } else { ep.clone() };
-  let ms = snd.monitor_default().await.ok();
-  let mr = rcv.monitor_default().await.ok();
   if let Err(e) = snd.connect(&target).await {
     return format!("setup-error connect {}", err_class(&e));
   }
